@@ -12,17 +12,20 @@ ENGINE_B = [{'template': 't_impl', 'kinds': ['addrcall_'], 'max_quick': 14, 'max
             {'template': 't_implname', 'kinds': ['addrcall_'], 'max_quick': 4, 'max_thorough': 16,
              'fixed': [[8, 0x140001000, 0x140002000, 2, 0, 3, 4, 1, 2, 0], [8, 4096, 8192, 2, 0, 0, 3, 1, 0, 0], [8, 4096, 8192, 2, 0, 0, 0, 1, 0, 1]]},
             # longer parameter lists: 4..6 parameters of mixed width in the emitted wrapper
-            {'template': 't_impl6', 'kinds': ['addrcall_'], 'max_quick': 12, 'max_thorough': 32, 'abi': True,
+            {'template': 't_impl6', 'kinds': ['addrcall_'], 'max_quick': 14, 'max_thorough': 32, 'abi': True,
              'fixed': [[8, 0x140003000, 1, 6, 0, 1, 2, 3, 1, 0, 2, 0, 0], [8, 0x7FF712345678, 0, 6, 1, 0, 3, 2, 0, 1, 1, 0, 0], [8, 4096, 2, 5, 3, 3, 0, 1, 2, 0, 0, 0, 0],
                        [8, 8192, 1, 4, 1, 1, 0, 0, 0, 0, 4, 0, 0],
                        # parameters named like the identifiers the wrapper itself binds (`this`, `f`)
                        [8, 4096, 1, 4, 2, 0, 1, 0, 0, 0, 1, 1, 0], [8, 4096, 1, 4, 0, 0, 1, 3, 0, 0, 1, 2, 0], [8, 4096, 2, 5, 1, 0, 0, 0, 3, 0, 2, 3, 0],
                        [8, 4096, 0, 4, 3, 0, 0, 0, 0, 0, 0, 2, 0],
                        # packed owner type, &self and &mut self receivers
-                       [8, 4096, 1, 4, 0, 1, 0, 3, 0, 0, 1, 0, 1], [8, 8192, 2, 4, 1, 0, 0, 0, 0, 0, 2, 0, 1]]}]
+                       [8, 4096, 1, 4, 0, 1, 0, 3, 0, 0, 1, 0, 1], [8, 8192, 2, 4, 1, 0, 0, 0, 0, 0, 2, 0, 1],
+                       # nested pointers with mixed mutability as parameter and as return type
+                       [8, 4096, 1, 6, 0, 1, 0, 0, 0, 7, 9, 0, 0], [8, 4096, 2, 6, 1, 0, 0, 0, 0, 8, 8, 0, 0]]}]
 CC = ['C', 'cdecl', 'stdcall', 'fastcall', 'thiscall', 'vectorcall', 'system', 'bogus']
-ARGT = {0: ['raw', 'u32'], 1: ['raw', 'u64'], 2: ['const*', ['raw', 'm::T']], 3: ['mut*', ['raw', 'u8']], 5: ['raw', 'bool']}
-ARGS_TXT = {0: 'u32', 1: 'u64', 2: '*const T', 3: '*mut u8', 4: 'Nope', 5: 'bool', 6: '*const Nope'}
+ARGT = {0: ['raw', 'u32'], 1: ['raw', 'u64'], 2: ['const*', ['raw', 'm::T']], 3: ['mut*', ['raw', 'u8']], 5: ['raw', 'bool'],
+        7: ['mut*', ['const*', ['raw', 'm::T']]], 8: ['const*', ['mut*', ['raw', 'u8']]]}
+ARGS_TXT = {0: 'u32', 1: 'u64', 2: '*const T', 3: '*mut u8', 4: 'Nope', 5: 'bool', 6: '*const Nope', 7: '*mut *const T', 8: '*const *mut u8'}
 EXPLANATION = ('Template t_impl (type T with one impl function: receiver none/&self/&mut self, 0..3 parameters chosen among integer, '
                'pointer and unresolvable types, optional return type incl. unresolvable, optional #[address(A)] with A over the whole '
                'isize range, optional calling convention, stray #[index]) is executed symbolically through function::build and '
@@ -73,8 +76,8 @@ def slices(tier, rng):
 def six_assume(a, ps, tier):
     # quick: u32 / u64 in every position, plus a pointer or an unresolvable type in the last one; thorough: u32 / u64 / *mut u8 everywhere
     kinds = (0, 1) if tier == 'quick' else (0, 1, 3)
-    last = (0, 1, 3, 4)
-    A = [a[0] == ps, a[1] >= 0, z3.ULE(a[2], 2), z3.UGE(a[3], 4), z3.ULE(a[3], 6), z3.ULE(a[10], 2 if tier == 'quick' else 4), z3.ULE(a[11], 3), z3.ULE(a[12], 1)]
+    last = (0, 1, 3, 4, 7, 8)          # incl. pointer chains whose levels differ in mutability
+    A = [a[0] == ps, a[1] >= 0, z3.ULE(a[2], 2), z3.UGE(a[3], 4), z3.ULE(a[3], 6), z3.Or(z3.ULE(a[10], 2 if tier == 'quick' else 4), a[10] == 8, a[10] == 9), z3.ULE(a[11], 3), z3.ULE(a[12], 1)]
     if tier == 'quick':
         A.append(z3.Implies(a[11] != 0, a[10] == 0))     # parameter names vary with no return type only
         A.append(z3.Implies(a[12] != 0, z3.And(a[11] == 0, a[3] == 4)))     # packed owner: four parameters, default names
